@@ -2,8 +2,9 @@
 EXTENDS H5Store
 PathsQ == {"/a", "/g/b"}
 \* includes shapes that are rank-reduced prefixes of others (<<2>> of <<2,3>>, <<2,1>> of <<2,1,2>>)
-ShapesQ == {<<4>>, <<2>>, <<2, 3>>, <<2, 1>>, <<2, 1, 2>>}
-ShapesT == {<<5>>, <<3>>, <<3, 3>>, <<2, 3>>, <<2, 3, 2>>, <<1, 4>>}
+\* (<<1, 2>> and <<3, 2>>: same rank and element count as <<2, 1>> and <<2, 3>> -- a shape test must compare extents)
+ShapesQ == {<<4>>, <<2>>, <<2, 3>>, <<3, 2>>, <<2, 1>>, <<1, 2>>, <<2, 1, 2>>}
+ShapesT == {<<5>>, <<3>>, <<3, 3>>, <<2, 3>>, <<3, 2>>, <<2, 3, 2>>, <<1, 4>>, <<4, 1>>}
 Lay3 == {"contig", "stepped", "offset"}
 Lay4 == {"contig", "stepped", "offset", "tail"}
 =============================================================================
